@@ -104,6 +104,17 @@ def prefix_equal(A, B, n):
     return z3.And(*cs) if cs else z3.BoolVal(True)
 
 
+def prefix_equal_upto(A, B, n):
+    """rows [0, n) of A and B are equal, n being a row count of B or smaller (bytes compared below B's offset n)"""
+    cs = []
+    for c in A.fixed:
+        cs.append(z3.ForAll([j], z3.Implies(z3.And(0 <= j, j < n), A.col(c)[j] == B.col(c)[j])))
+    for r in A.ragged:
+        cs.append(z3.ForAll([j], z3.Implies(z3.And(0 <= j, j <= n), A.off(r)[j] == B.off(r)[j])))
+        cs.append(z3.ForAll([b_], z3.Implies(z3.And(0 <= b_, b_ < B.off(r)[n]), A.col(r)[b_] == B.col(r)[b_])))
+    return z3.And(*cs) if cs else z3.BoolVal(True)
+
+
 def all_assigns(c, name, self_):
     h = c.old
     c.assigns(self_)
@@ -247,6 +258,85 @@ def make(name):
         c.ensures(lambda: z3.Or(c.result >= 0, c.result == E.TSK_ERR_NO_MEMORY, c.result == E.TSK_ERR_TABLE_OVERFLOW,
                                 c.result == E.TSK_ERR_COLUMN_OVERFLOW, c.result == E.TSK_ERR_METADATA_DISABLED), "codes")
         all_assigns(c, name, self_)
+
+    # ---------------------------------------------------------------- truncate / clear / get_row
+    OOB = {"edges": "TSK_ERR_EDGE_OUT_OF_BOUNDS", "sites": "TSK_ERR_SITE_OUT_OF_BOUNDS",
+           "mutations": "TSK_ERR_MUTATION_OUT_OF_BOUNDS", "migrations": "TSK_ERR_MIGRATION_OUT_OF_BOUNDS",
+           "populations": "TSK_ERR_POPULATION_OUT_OF_BOUNDS", "provenances": "TSK_ERR_PROVENANCE_OUT_OF_BOUNDS",
+           "individuals": "TSK_ERR_INDIVIDUAL_OUT_OF_BOUNDS"}[name]
+    len_fields = ["num_rows"] + [r + "_length" for (r, _d, _l) in ragged]
+
+    tself = "mutations" if name == "mutations" else "self"      # the parameter's name in tables.c
+
+    @contract("tables.c", prefix + "_truncate", [tself, "num_rows"])
+    def truncate(c):
+        self_, n = c.arg(tself), c.arg("num_rows")
+        h, E = c.old, c.E
+        c.requires(z3.Not(h.isnull(self_)))
+        V = View(h, self_, name)
+        c.requires(V.rep())
+
+        def post():
+            N = View(c.new, self_, name)
+            kept = [N.n == n, prefix_equal_upto(N, V, n)] + [N.length(r) == V.off(r)[n] for r in V.ragged]
+            return z3.And(N.rep(), (c.result == 0) == (n <= V.n),
+                          z3.Implies(c.result == 0, z3.And(*kept)),
+                          z3.Implies(c.result != 0, z3.And(c.result == E.TSK_ERR_BAD_TABLE_POSITION,
+                                                           unchanged_scalars(N, V), prefix_equal(N, V, V.n))))
+        c.ensures(post, "list_prefix_or_unchanged")
+        c.assigns(self_, len_fields)
+
+    @contract("tables.c", prefix + "_clear", ["self"])
+    def clear(c):
+        self_ = c.arg("self")
+        h = c.old
+        c.requires(z3.Not(h.isnull(self_)))
+        V = View(h, self_, name)
+        c.requires(V.rep())
+
+        def post():
+            N = View(c.new, self_, name)
+            return z3.And(c.result == 0, N.rep(), N.n == 0, *[N.length(r) == 0 for r in V.ragged])
+        c.ensures(post, "empty_list")
+        c.assigns(self_, len_fields)
+
+    def row_is(n, rowp, V, idx):
+        g = lambda f: n.get(rowp, f)
+        cs = [g("id") == idx]
+        for (col, par) in fixed:
+            cs.append(g(par) == V.col(col)[idx])
+        for (col, dp, lp) in ragged:
+            cs.append(g(lp) == V.off(col)[idx + 1] - V.off(col)[idx])
+        return z3.And(*cs)
+
+    def row_ptrs(c, h, self_, rowp, V, idx):
+        for (col, dp, lp) in ragged:
+            c.sets_ptr(rowp, dp, Ptr(h.get(self_, col).region, V.off(col)[idx]))
+
+    @contract("tables.c", prefix + "_get_row_unsafe", ["self", "index", "row"])
+    def get_row_unsafe(c):
+        self_, idx, rowp = c.arg("self"), c.arg("index"), c.arg("row")
+        h = c.old
+        c.requires(z3.And(z3.Not(h.isnull(self_)), z3.Not(h.isnull(rowp)), h.len(rowp) >= 1))
+        V = View(h, self_, name)
+        c.requires(V.rep())
+        c.requires(z3.And(0 <= idx, idx < V.n), "index_in_range")
+        c.ensures(lambda: row_is(c.new, rowp, V, idx), "row_fields")
+        row_ptrs(c, h, self_, rowp, V, idx)
+        c.assigns(rowp)
+
+    @contract("tables.c", prefix + "_get_row", ["self", "index", "row"])
+    def get_row(c):
+        self_, idx, rowp = c.arg("self"), c.arg("index"), c.arg("row")
+        h, E = c.old, c.E
+        c.requires(z3.And(z3.Not(h.isnull(self_)), z3.Not(h.isnull(rowp)), h.len(rowp) >= 1))
+        V = View(h, self_, name)
+        c.requires(V.rep())
+        c.ensures(lambda: (c.result == 0) == z3.And(0 <= idx, idx < V.n), "error_iff_out_of_range")
+        c.ensures(lambda: z3.Or(c.result == 0, c.result == getattr(E, OOB)), "codes")
+        c.ensures(lambda: z3.Implies(c.result == 0, row_is(c.new, rowp, V, idx)), "row_fields")
+        row_ptrs(c, h, self_, rowp, V, idx)
+        c.assigns(rowp)
 
 
 for _name in SPEC:
